@@ -34,18 +34,20 @@ Theorem C01_immediate_above_255_rejected : forall m v cur,
 Proof. exact immediate_above_255_rejected. Qed.
 Print Assumptions C01_immediate_above_255_rejected.
 
-(* Branches: signed byte of target - (pc + 2), rejected outside -128..127.
-   Guard target <> 0 is the known class F-C01b (see C01_branch_to_zero_refuted). *)
+(* Branches: signed byte of target - (pc + 2), rejected outside -128..127 -- for every target, address 0 included
+   (the former escape for a target of 0, defect F-C01b, is repaired in /repo 8111844; the translator reads whether the
+   escape is present, and this proof does not go through if it is). *)
 Theorem C01_branch : forall m pc target,
-  is_branch m = true -> target <> 0 -> 0 <= pc <= 65535 -> - 2 ^ 62 <= target <= 2 ^ 62 ->
+  is_branch m = true -> 0 <= pc <= 65535 -> - 2 ^ 62 <= target <= 2 ^ 62 ->
   code_encode m FAbs target (Some pc) = spec_branch m pc target.
 Proof. exact branch_encode. Qed.
 Print Assumptions C01_branch.
 
-Theorem C01_branch_to_zero_refuted :
-  exists m pc, is_branch m = true /\ spec_branch m pc 0 = None /\ code_encode m FAbs 0 (Some pc) = Some [208%N; 0%N].
-Proof. exact branch_to_zero_refuted. Qed.
-Print Assumptions C01_branch_to_zero_refuted.
+Theorem C01_branch_to_zero_rejected :
+  spec_branch Bne 8192 0 = None /\ code_encode Bne FAbs 0 (Some 8192) = None /\
+  code_encode Bne FAbs 0 (Some 100) = Some [208%N; 154%N].
+Proof. exact branch_to_zero_rejected. Qed.
+Print Assumptions C01_branch_to_zero_rejected.
 
 (* Neighbour independence on the assembler model (model/Asm.v, the emit_token loop of codegen/mod.rs): a sequence of
    position-independent statements (non-branch instructions whose operand is absent or a closed expression, data with
